@@ -94,7 +94,7 @@ type c07Case struct {
 
 func (c07) Bounds(tier string) map[string]interface{} {
 	if tier == "thorough" {
-		return map[string]interface{}{"sources": len(c07Sources), "pairs_preemptions": 1, "pairs_of_4_smallest_preemptions": 2, "triples_of_3_smallest_preemptions": 1, "seq_len": 3, "map_starts": 17}
+		return map[string]interface{}{"sources": len(c07Sources), "pairs_preemptions": 1, "pairs_of_4_smallest_preemptions": 2, "triples_of_4_smallest_preemptions": 1, "seq_len": 3, "map_starts": 17}
 	}
 	return map[string]interface{}{"sources": len(c07Sources), "pairs_preemptions": 1, "pairs_small_preemptions": 2, "seq_len": 3, "map_starts": 17}
 }
@@ -138,16 +138,16 @@ func (c07) Cases(tier string, emit func(string, interface{})) {
 			emit("pair", c07Case{Srcs: p, Bound: 2})
 		}
 	} else {
-		// bound 2 on every pair of the four smallest sources, triples of the three smallest with bound 1
-		// (bound 2 on all 28 pairs and all 84 triples did not finish in 50 minutes: measured)
+		// bound 2 on every pair of the four smallest sources, triples of the four smallest with bound 1
+		// (bound 2 on the 21 pairs of the six smallest did not finish in 50 minutes: measured twice)
 		for i := 0; i < 4; i++ {
 			for j := i; j < 4; j++ {
 				emit("pair", c07Case{Srcs: []int{i, j}, Bound: 2})
 			}
 		}
-		for i := 0; i < 3; i++ {
-			for j := i; j < 3; j++ {
-				for k := j; k < 3; k++ {
+		for i := 0; i < 4; i++ {
+			for j := i; j < 4; j++ {
+				for k := j; k < 4; k++ {
 					emit("pair", c07Case{Srcs: []int{i, j, k}, Bound: 1})
 				}
 			}
